@@ -4,6 +4,8 @@ package main
 // function's verification conditions are accumulated in.
 
 import (
+	"runtime/debug"
+	"os"
 	"fmt"
 	"math/big"
 	"sort"
@@ -362,6 +364,9 @@ func (s *Script) define(hint, sort, t string) string {
 	}
 	if s.pure > 0 {
 		return t
+	}
+	if tr := os.Getenv("GOVC_TRACE_DEF"); tr != "" && strings.HasSuffix(fmt.Sprintf("v%d_%s", s.counter+1, sanitize(hint)), tr) {
+		fmt.Fprintf(os.Stderr, "TRACE define %s script=%p\n%s\n", tr, s, debug.Stack())
 	}
 	n := s.fresh(hint, sort)
 	s.defOf[n] = t
